@@ -187,6 +187,7 @@ type Exec struct {
 	maxOf    map[*Object]int
 	timerObjs map[*Object]*Timer
 	noTrack  bool
+	unsatCache map[uint32]bool
 	faults   int
 }
 
@@ -250,10 +251,16 @@ func (ex *Exec) feasible(t *Term) SatResult {
 	if t.IsFalse() {
 		return Unsat
 	}
+	if ex.unsatCache[t.id] {
+		return Unsat
+	}
 	ex.flush()
 	r := ex.solver.CheckWith(t)
 	if r == Unknown {
 		ex.sawUnknown = true
+	}
+	if r == Unsat {
+		ex.unsatCache[t.id] = true
 	}
 	return r
 }
@@ -306,7 +313,12 @@ func (ex *Exec) branch(cond *Term) bool {
 		ex.assume(ex.ctx.Not(cond))
 		return false
 	}
-	rt := ex.feasible(cond)
+	var rt SatResult
+	if ex.unsatCache[ex.ctx.Not(cond).id] {
+		rt = Sat // the negation is known infeasible and the path condition is satisfiable
+	} else {
+		rt = ex.feasible(cond)
+	}
 	var rf SatResult
 	if rt == Unsat {
 		rf = Sat // path condition is satisfiable, so the other side must be
